@@ -229,3 +229,32 @@ contract(
     uses=['bumble.l2cap:ChannelManager.find_channel', 'bumble.l2cap:LeCreditBasedChannel.on_disconnection_request', 'bumble.l2cap:ClassicChannel.on_disconnection_request'],
     modifies=CHAN_MOD,
 )
+
+
+def dispatch_rsp_post(self, connection, response, old, ghost):
+    h = connection.handle
+    c0 = entry(old.self.channels, h, response.source_cid)
+    if c0 is None:
+        return [pool_same_except(ghost.chans, old.ghost.chans, []), pool_same_except(ghost.cdicts, old.ghost.cdicts, []), ghost.frames == old.ghost.frames] + wf(self, None) + [chan_inv(self), unshared(ghost)]
+    c = now(c0)
+    answered = ite(is_le(c0), c0.state == LE_DISCONNECTING, c0.state == CL_WAIT_DISCONNECT) and response.destination_cid == c0.destination_cid and response.source_cid == c0.source_cid
+    # the answer to our own disconnection request closes the channel and takes it out of both tables; anything else is ignored
+    return [
+        ghost.frames == old.ghost.frames,
+        implies(answered, closed(c) and (c.disconnection_result is None or c.disconnection_result.st != PENDING) and (c0.disconnection_result is None or now(c0.disconnection_result).st != PENDING)),
+        implies(not answered, pool_same_except(ghost.chans, old.ghost.chans, []) and pool_same_except(ghost.cdicts, old.ghost.cdicts, []) and pool_same_except(ghost.futs, old.ghost.futs, [])),
+    ] + [implies(answered, x) for x in closed_effect(self, old.self, c, ghost, old.ghost)] + wf(self, None) + [chan_inv(self), unshared(ghost)]
+
+
+from contracts.c09_tables import LE_DISCONNECTING  # noqa: E402
+
+contract(
+    'bumble.l2cap:ChannelManager.on_l2cap_disconnection_response',
+    prop='C09',
+    params=dict(self=MGR, connection=RefT('conns'), cid=Int, response=DISC_RSP),
+    ghost=HEAP,
+    requires=lambda self, ghost: wf(self, None) + [chan_inv(self), unshared(ghost)],
+    ensures=dispatch_rsp_post,
+    uses=['bumble.l2cap:ChannelManager.find_channel', 'bumble.l2cap:LeCreditBasedChannel.on_disconnection_response', 'bumble.l2cap:ClassicChannel.on_disconnection_response'],
+    modifies=CHAN_MOD,
+)
